@@ -278,8 +278,8 @@ nnr_morvel56 = PlateMotionModel(
         rive=RotationPole("rive", wx=-4.55332, wy=-14.62801,wz= 5.65195, dwx=float("nan"), dwy=float("nan"), dwz=float("nan"), unit="milliarcsecond per year", description="Rivera plate"),
         sand=RotationPole("sand", wx= 3.39908, wy=-2.54932, wz=-2.44715, dwx=float("nan"), dwy=float("nan"), dwz=float("nan"), unit="milliarcsecond per year", description="Sandwich plate"),
         scot=RotationPole("scot", wx=-0.13505, wy=-0.46636, wz= 0.20131, dwx=float("nan"), dwy=float("nan"), dwz=float("nan"), unit="milliarcsecond per year", description="Scotia plate"),
-        soam=RotationPole("soam", wx= 0.07499, wy=-0.78168, wz= 0.93420, dwx=float("nan"), dwy=float("nan"), dwz=float("nan"), unit="milliarcsecond per year", description="South American plate"),
-        soma=RotationPole("soma", wx=-0.14054, wy=-0.33384, wz=-0.15092, dwx=float("nan"), dwy=float("nan"), dwz=float("nan"), unit="milliarcsecond per year", description="Somali plate"),
+        soam=RotationPole("soam", wx=-0.14054, wy=-0.33384, wz=-0.15092, dwx=float("nan"), dwy=float("nan"), dwz=float("nan"), unit="milliarcsecond per year", description="South American plate"),
+        soma=RotationPole("soma", wx= 0.07499, wy=-0.78168, wz= 0.93420, dwx=float("nan"), dwy=float("nan"), dwz=float("nan"), unit="milliarcsecond per year", description="Somali plate"),
         sund=RotationPole("sund", wx=-0.06815, wy=-0.77587, wz= 0.93018, dwx=float("nan"), dwy=float("nan"), dwz=float("nan"), unit="milliarcsecond per year", description="Sunda plate"),
         sur_=RotationPole("sur_", wx=-0.11812, wy=-0.30264, wz=-0.20697, dwx=float("nan"), dwy=float("nan"), dwz=float("nan"), unit="milliarcsecond per year", description="Sur plate"),
         yang=RotationPole("ynag", wx=-0.24434, wy=-0.48751, wz= 1.07163, dwx=float("nan"), dwy=float("nan"), dwz=float("nan"), unit="milliarcsecond per year", description="Yangtze plate"),
